@@ -181,7 +181,7 @@ def insert_noise(rng, packets, dialect, positions=None, count=None):
     return out
 
 
-def insert_failing(rng, packets, dialect):
+def insert_failing(rng, packets, dialect, burst=0):
     """mapped packets that fail while being decoded or applied, without any effect (unknown entity, payload shorter than the fixed
     fields, a nested update with no bits at all for an entity that exists): in lenient mode every other packet must still be
     delivered exactly as before -- the exception classes differ on purpose (KeyError, struct.error, plain Exception, AssertionError)"""
@@ -207,6 +207,11 @@ def insert_failing(rng, packets, dialect):
             pkt = (tab['nested'], struct.pack('<IbI', rng.choice(known), 0, 9) + b'\x80')
         if pkt is not None:
             out.insert(pos, (pkt[0], pkt[1], {'kind': 'failing', 'fault': kind, 'time': 0}))
+            if burst and kind in ('unknown-prop', 'unknown-method'):
+                # a long uninterrupted run of the same failing packet (a recording whose entity was never created): however many there
+                # are, each is skipped and the packets after them are delivered
+                out[pos:pos] = [(pkt[0], pkt[1], {'kind': 'failing', 'fault': kind, 'time': 0})] * burst
+                burst = 0
     return out
 
 
@@ -235,8 +240,8 @@ def _noise_worker(cfg):
             key = '%s-%d' % (cfg['seed_key'], hi)
             bad = None
             if dialect != 'wowp':
-                for _ in range(2):
-                    v = insert_failing(rng, base_packets, dialect)
+                for vi in range(2):
+                    v = insert_failing(rng, base_packets, dialect, burst=(1100 if (vi == 1 and hi == 0) else 0))
                     _, got, _ = histcheck.run_history(None, st, dialect, v, strict=False, subs=subs)
                     if got['world'] != ref['world'] or got['log'] != ref['log'] or histcheck.norm_end(got) != histcheck.norm_end(ref):
                         bad = ('oracle', 'lenient mode: packets that fail without effect change what the other packets do: %s' % (
